@@ -24,9 +24,19 @@ def model(ctx):
     ctx.add("spec_mutants_rejected", 1)
 
 
+def model_c(ctx, thorough):
+    """MachineC: the bit-exact reduced-size gate algorithm decrypts to the truth tables and refines MachineP"""
+    r = tlc.run_tlc("MC_MachineC", constants={"AVals": "{0, 13}" if thorough else "{13}"}, workdir=ctx.dir, timeout=3000, xmx="12g")
+    if not tlc.expect_ok(ctx, r, "MC_MachineC"):
+        raise CheckBroken("MachineC violates %s: %s" % (r.violated, r.out[-1500:]))
+    ctx.sample({"model": "MC_MachineC (W=5, N'=16, n=2, l*Bgbit=5, t*basebit=5)", "gate_evaluations": r.distinct - 16,
+                "invariants": "TruthTable, RefinesMachineP (phase projection of every concrete gate step is a MachineP step)"})
+
+
 def run(ctx):
     thorough = ctx.tier == "thorough"
     model(ctx)
+    model_c(ctx, thorough)
     full = None
     some = ["--", "boot"]
     if thorough:
